@@ -1,5 +1,7 @@
 package values
 
+import "math"
+
 // A Range is the range of integers from b to e inclusive.
 type Range struct {
 	b, e int
@@ -11,16 +13,27 @@ func NewRange(b, e int) Range {
 }
 
 // Len is in the iteration interface
-func (r Range) Len() int { return r.e + 1 - r.b }
+func (r Range) Len() int {
+	if r.e < r.b {
+		return 0
+	}
+	n := r.e - r.b + 1
+	if n <= 0 { // the span does not fit in an int
+		return math.MaxInt
+	}
+	return n
+}
 
 // Index is in the iteration interface
 func (r Range) Index(i int) any { return r.b + i }
 
 // AsArray converts the range into an array.
 func (r Range) AsArray() []any {
-	a := make([]any, 0, r.Len())
-	for i := r.b; i <= r.e; i++ {
-		a = append(a, i)
+	n := r.Len()
+	a := make([]any, 0, n)
+	// count iterations rather than comparing with r.e, which cannot terminate when r.e is the largest int
+	for i := 0; i < n; i++ {
+		a = append(a, r.b+i)
 	}
 	return a
 }
